@@ -675,6 +675,9 @@ class Interp:
         return self.arith(op, a, b, e)
 
     def compare(self, op, a, b):
+        if any(isinstance(x, (Comp, Vec, BlockVec, SmallMat, Container, Struct, RangeVal)) for x in (a, b)):
+            # a test on vector-valued data (one coordinate, a row): control flow that depends on the data values
+            raise Unsupported("comparison %s on vector-valued data (%s, %s)" % (op, type(a).__name__, type(b).__name__))
         a, b = sp.sympify(a), sp.sympify(b)
         d = sp.simplify(a - b)
         rel = {"<": sp.Lt, "<=": sp.Le, ">": sp.Gt, ">=": sp.Ge, "==": sp.Eq, "!=": sp.Ne}[op]
